@@ -136,7 +136,7 @@ func countLess(sorted []uint64, x uint64) int64 {
 func (s *seq) burst(r *kit.Rand, G, ops int, allowP, passP float64, gap time.Duration, no int) bool {
 	t := s.vc.Advance(gap)
 	over := s.cfg.Th < 0
-	trigger := over || s.m.hot(t)
+	trigger := over || s.m.hotMay(t)
 	capLo, capHi := s.m.capacity(t)
 	F0 := s.m.flying
 	ws := make([]*worker, G)
@@ -253,12 +253,12 @@ func (s *seq) burst(r *kit.Rand, G, ops int, allowP, passP float64, gap time.Dur
 	if allows > 0 {
 		if over {
 			s.m.lastOver, s.m.everOver = t, true
-		} else if s.m.dropped && s.m.everOver && !s.m.hot(t) {
-			s.m.dropped = false
+		} else {
+			s.m.noteBelow(t)
 		}
 	}
 	if sheds > 0 {
-		s.m.dropped = true
+		s.m.dropped, s.m.dropMay = true, true
 	}
 	s.m.drops += sheds
 	s.m.admitted += A
